@@ -6,10 +6,10 @@ def plan(ctx):
     seed, tier = ctx["seed"], ctx["tier"]
     items = []
     if tier == "quick":
-        pools = [("mutation", 260)]
+        pools = [("mutation", 800)]
         cap = 20.0
     else:
-        pools = [("mutation", 1500), ("widemutation", 500)]
+        pools = [("mutation", 6000), ("widemutation", 2000)]
         cap = 120.0
     for profile, n in pools:
         for i in range(n):
